@@ -52,11 +52,10 @@ func C04(c *Ctx) {
 	step := c.fn("core", "Spec", "Step")
 	consider := c.fn("core", "Branches", "consider")
 	try := c.fn("core", "Branch", "try")
-	target := c.fn("core", "Branch", "target")
-	if step == nil || consider == nil || try == nil || target == nil {
+	if step == nil || consider == nil || try == nil {
 		return
 	}
-	c.R.Fn(fname(step), fname(consider), fname(try), fname(target))
+	c.R.Fn(fname(step), fname(consider), fname(try))
 
 	// ------------------------------------------------------------ R7
 	if ea, _ := c.ecmaAnalysis(); ea != nil {
@@ -398,32 +397,88 @@ func C04(c *Ctx) {
 		c.R.Check(okRepl, "C04-R4", "Step: action result replaces bindings", c.pos(considerCall), "on err == nil branch evaluation gets Execution.Bs", "after a successful action the branches do not see the bindings the action returned; "+strings.Join(why, "; "))
 	}
 
-	// ------------------------------------------------------------ R2, R5, R6 (try)
+	// ------------------------------------------------------------ R2, R5, R6 (try and the helpers it is split into)
+	var closure []*ssa.Function
+	for _, f := range pkgClosure(try) {
+		if prog.PkgOf(f) == "core" && f != step && f != consider {
+			closure = append(closure, f)
+		}
+	}
 	var matchCall, guardCall *ssa.Call
-	ssau.Instrs(try, func(in ssa.Instruction) {
-		ci, ok := in.(*ssa.Call)
-		if !ok {
-			return
-		}
-		if sc := ci.Common().StaticCallee(); sc != nil && sc.Name() == "Match" && prog.PkgOf(sc) == "match" {
-			matchCall = ci
-		}
-		if ci.Common().IsInvoke() && ci.Common().Method.Name() == "Exec" {
-			if _, is := isFieldLoad(ci.Common().Value, "core", "Branch", "Guard"); is {
-				guardCall = ci
+	for _, f := range closure {
+		ssau.Instrs(f, func(in ssa.Instruction) {
+			ci, ok := in.(*ssa.Call)
+			if !ok {
+				return
 			}
-		}
-	})
+			if sc := ci.Common().StaticCallee(); sc != nil && sc.Name() == "Match" && prog.PkgOf(sc) == "match" {
+				matchCall = ci
+			}
+			if ci.Common().IsInvoke() && ci.Common().Method.Name() == "Exec" {
+				for _, d := range deepDefs(ci.Common().Value, closure) {
+					if _, is := isFieldLoad(d, "core", "Branch", "Guard"); is {
+						guardCall = ci
+					}
+				}
+			}
+		})
+	}
 	if matchCall == nil || guardCall == nil {
-		c.R.Break("C04: Branch.try lacks the matcher call or the guard call")
+		c.R.Break("C04: Branch.try (with its helpers) lacks the matcher call or the guard call")
 		return
 	}
+	for _, f := range closure {
+		c.R.Fn(fname(f))
+	}
+	// siteIn: the instruction of try through which the given call is reached
+	siteIn := func(call *ssa.Call) ssa.Instruction {
+		if call.Parent() == try {
+			return call
+		}
+		var site ssa.Instruction
+		ssau.Instrs(try, func(in ssa.Instruction) {
+			ci, ok := in.(ssa.CallInstruction)
+			if !ok || site != nil {
+				return
+			}
+			sc := ci.Common().StaticCallee()
+			if sc == nil {
+				return
+			}
+			for _, g := range pkgClosure(sc) {
+				if g == call.Parent() {
+					site = in
+				}
+			}
+		})
+		return site
+	}
+	mSite := siteIn(matchCall)
+	if mSite == nil {
+		c.R.Break("C04: cannot relate the matcher call to Branch.try")
+		return
+	}
+	allLeaves := func(v ssa.Value, pred func(d ssa.Value) bool) bool {
+		ds := deepDefs(v, closure)
+		if len(ds) == 0 {
+			return false
+		}
+		for _, d := range ds {
+			if !pred(d) {
+				return false
+			}
+		}
+		return true
+	}
 	// matcher arguments: (matcher, b.Pattern, against, bs)
-	_, patOK := isFieldLoad(matchCall.Common().Args[1], "core", "Branch", "Pattern")
-	agP, agOK := matchCall.Common().Args[2].(*ssa.Parameter)
-	bsP, bsOK := matchCall.Common().Args[3].(*ssa.Parameter)
-	c.R.Check(patOK && agOK && bsOK && agP == ifaceParam(try) && ssau.TypeIs(bsP.Type(), prog.Abs("match"), "Bindings"), "C04-R6", "try: Match(pattern, against, bs)", c.pos(matchCall), "the branch's own pattern against the given value with the given bindings", "the matcher is not applied to (branch pattern, value to match, current bindings)")
-	// R6: plain no-match returns
+	patOK := allLeaves(matchCall.Common().Args[1], func(d ssa.Value) bool { _, is := isFieldLoad(d, "core", "Branch", "Pattern"); return is })
+	agOK := allLeaves(matchCall.Common().Args[2], func(d ssa.Value) bool { return d == ssa.Value(ifaceParam(try)) })
+	bsOK := allLeaves(matchCall.Common().Args[3], func(d ssa.Value) bool {
+		pr, isP := d.(*ssa.Parameter)
+		return isP && pr.Parent() == try && ssau.TypeIs(pr.Type(), prog.Abs("match"), "Bindings")
+	})
+	c.R.Check(patOK && agOK && bsOK, "C04-R6", "try: Match(pattern, against, bs)", c.pos(matchCall), "the branch's own pattern against the given value with the given bindings", "the matcher is not applied to (branch pattern, value to match, current bindings)")
+	// R6: plain no-match returns of try
 	nr := 0
 	for _, b := range try.Blocks {
 		ret, ok := b.Instrs[len(b.Instrs)-1].(*ssa.Return)
@@ -431,7 +486,7 @@ func C04(c *Ctx) {
 			continue
 		}
 		nr++
-		after := matchCall.Block().Dominates(b) || flow.Reachable(matchCall.Block(), b, nil)
+		after := mSite.Block().Dominates(b) || flow.Reachable(mSite.Block(), b, nil)
 		patternless := false
 		for _, f := range flow.FactsAt(b) {
 			if bo, isB := f.Cond.(*ssa.BinOp); isB && ssau.IsNilConst(bo.Y) {
@@ -441,12 +496,47 @@ func C04(c *Ctx) {
 			}
 		}
 		// a return reachable without passing the Match call on a path where the pattern is present is a pre-filter
-		pre := flow.Reachable(try.Blocks[0], b, map[*ssa.BasicBlock]bool{matchCall.Block(): true}) && !patternlessOnly(try, b, matchCall.Block())
+		pre := !mSite.Block().Dominates(b) && flow.Reachable(try.Blocks[0], b, map[*ssa.BasicBlock]bool{mSite.Block(): true}) && !patternlessOnly(try, b, mSite.Block())
 		c.R.Check((after || patternless) && !pre, "C04-R6", fmt.Sprintf("try: no-match return #%d decided by matcher/guard", nr), c.pos(ret), "after the Match call or on the pattern-less path", "a branch can be rejected before (or without) consulting the matcher")
 	}
-	// R2/R5: the State literal
-	bsStores := storesTo(try, "State", "Bs")
-	nnStores := storesTo(try, "State", "NodeName")
+	// ... and of the helper that holds the Match call: "no candidates" is only concluded after the matcher ran
+	if mf := matchCall.Parent(); mf != try {
+		for _, b := range mf.Blocks {
+			ret, ok := b.Instrs[len(b.Instrs)-1].(*ssa.Return)
+			if !ok || len(ret.Results) == 0 {
+				continue
+			}
+			last := ret.Results[len(ret.Results)-1]
+			if !ssau.IsNilConst(ret.Results[0]) || !ssau.IsNilConst(last) {
+				continue
+			}
+			nr++
+			after := matchCall.Block().Dominates(b) || flow.Reachable(matchCall.Block(), b, nil)
+			patternless := false
+			for _, f := range flow.FactsAt(b) {
+				if bo, isB := f.Cond.(*ssa.BinOp); isB && ssau.IsNilConst(bo.Y) {
+					if _, is := isFieldLoad(bo.X, "core", "Branch", "Pattern"); is && ((bo.Op == token.NEQ && !f.True) || (bo.Op == token.EQL && f.True)) {
+						patternless = true
+					}
+				}
+			}
+			c.R.Check(after || patternless, "C04-R6", fmt.Sprintf("%s: no-candidates return #%d decided by the matcher", mf.Name(), nr), c.pos(ret), "after the Match call or on the pattern-less path", "a branch can be rejected before (or without) consulting the matcher")
+		}
+	}
+	// R2/R5: the next state built by try
+	var bsStores, nnStores []*ssa.Store
+	for _, f := range closure {
+		for _, st := range storesTo(f, "State", "Bs") {
+			if _, _, base, _ := ssau.FieldOf(st.Addr); localFresh(base) {
+				bsStores = append(bsStores, st)
+			}
+		}
+		for _, st := range storesTo(f, "State", "NodeName") {
+			if _, _, base, _ := ssau.FieldOf(st.Addr); localFresh(base) {
+				nnStores = append(nnStores, st)
+			}
+		}
+	}
 	if len(bsStores) != 1 || len(nnStores) != 1 {
 		c.R.Violate("C04-R2", "try: one next-state literal", c.P.Pos(try.Pos()), fmt.Sprintf("%d/%d stores to State.Bs/NodeName", len(bsStores), len(nnStores)))
 		return
@@ -464,31 +554,59 @@ func C04(c *Ctx) {
 			matchBss = ex
 		}
 	}
+	fromMatcher := func(v ssa.Value) bool {
+		for _, d := range deepDefs(v, closure) {
+			if d == matchBss {
+				return true
+			}
+		}
+		return false
+	}
+	isNonNilFact := func(f flow.Fact, of ssa.Value) bool {
+		bo, isB := f.Cond.(*ssa.BinOp)
+		if !isB || !ssau.IsNilConst(bo.Y) {
+			return false
+		}
+		nn := (bo.Op == token.NEQ && f.True) || (bo.Op == token.EQL && !f.True)
+		if !nn {
+			return false
+		}
+		if b2, is2 := isFieldLoad(bo.X, "core", "Execution", "Bs"); is2 && b2 == guardExe {
+			return true
+		}
+		return bo.X == of
+	}
 	okGate := true
 	var why []string
-	for _, d := range phiDefs(resBs, nil, map[ssa.Value]bool{}) {
+	for _, d := range deepDefs(resBs, closure) {
 		if ssau.IsNilConst(d) {
 			continue // rejected: filtered by the nil test below
 		}
 		if base, is := isFieldLoad(d, "core", "Execution", "Bs"); is && base == guardExe {
-			// must be on the guard path and under Bs != nil
+			// must be under Bs != nil: where it is read, where it is chosen (phi edge), or where it is returned from a helper
 			in := d.(ssa.Instruction)
 			nonnil := false
-			facts := append(flow.FactsAt(in.Block()), flow.FactsAt(bsStores[0].Block())...)
-			for _, pe := range phiEdgesWithBlocks(resBs, bsStores[0].Block()) {
-				if pe.v == d {
-					facts = append(facts, flow.FactsAt(pe.b)...)
+			facts := append([]flow.Fact{}, flow.FactsAt(in.Block())...)
+			if in.Parent() == try {
+				facts = append(facts, flow.FactsAt(bsStores[0].Block())...)
+				for _, pe := range phiEdgesWithBlocks(resBs, bsStores[0].Block()) {
+					if pe.v == d {
+						facts = append(facts, flow.FactsAt(pe.b)...)
+					}
+				}
+			}
+			for _, r := range ssau.Referrers(d) {
+				if ph, isPhi := r.(*ssa.Phi); isPhi {
+					for i, e := range ph.Edges {
+						if e == d {
+							facts = append(facts, flow.FactsAt(ph.Block().Preds[i])...)
+						}
+					}
 				}
 			}
 			for _, f := range facts {
-				if bo, isB := f.Cond.(*ssa.BinOp); isB && ssau.IsNilConst(bo.Y) {
-					nn := (bo.Op == token.NEQ && f.True) || (bo.Op == token.EQL && !f.True)
-					if b2, is2 := isFieldLoad(bo.X, "core", "Execution", "Bs"); is2 && b2 == guardExe && nn {
-						nonnil = true
-					}
-					if bo.X == d && nn {
-						nonnil = true
-					}
+				if isNonNilFact(f, d) {
+					nonnil = true
 				}
 			}
 			if !nonnil {
@@ -501,13 +619,6 @@ func C04(c *Ctx) {
 			if ia, ok := ld.X.(*ssa.IndexAddr); ok {
 				if n, isC := ssau.ConstInt(ia.Index); isC && n == 0 {
 					// element 0 of the match result, only without a guard
-					src := phiDefs(ia.X, nil, map[ssa.Value]bool{})
-					fromMatch := false
-					for _, s := range src {
-						if s == matchBss {
-							fromMatch = true
-						}
-					}
 					noGuard := false
 					for _, f := range flow.FactsAt(ld.Block()) {
 						if bo, isB := f.Cond.(*ssa.BinOp); isB && ssau.IsNilConst(bo.Y) {
@@ -516,10 +627,10 @@ func C04(c *Ctx) {
 							}
 						}
 					}
-					if fromMatch && noGuard {
+					if fromMatcher(ia.X) && noGuard {
 						continue
 					}
-					why = append(why, fmt.Sprintf("match candidate becomes the result (from matcher=%v, on the guard-less path=%v)", fromMatch, noGuard))
+					why = append(why, fmt.Sprintf("match candidate becomes the result (from matcher=%v, on the guard-less path=%v)", fromMatcher(ia.X), noGuard))
 				}
 			}
 		}
@@ -538,21 +649,64 @@ func C04(c *Ctx) {
 	// guard receives the candidates one by one
 	okCand := false
 	if ld, ok := guardCall.Common().Args[1].(*ssa.UnOp); ok {
-		if ia, ok := ld.X.(*ssa.IndexAddr); ok {
-			for _, s := range phiDefs(ia.X, nil, map[ssa.Value]bool{}) {
-				if s == matchBss {
-					okCand = true
-				}
-			}
+		if ia, ok := ld.X.(*ssa.IndexAddr); ok && fromMatcher(ia.X) {
+			okCand = true
 		}
 	}
 	c.R.Check(okCand, "C04-R2", "try: guard is given the match candidates", c.pos(guardCall), "guard executes with an element of the match result", "the guard does not receive the bindings produced by the pattern match")
-	// R5
-	okT := false
-	if cl, ok := nnStores[0].Val.(*ssa.Call); ok && cl.Common().StaticCallee() == target && len(cl.Common().Args) == 2 && cl.Common().Args[1] == resBs {
-		okT = true
+	// R5: every value the next node's name can take is the branch's Target, or was looked up in the very bindings that become the next state's bindings
+	resLeaves := map[ssa.Value]bool{resBs: true}
+	for _, d := range deepDefs(resBs, closure) {
+		resLeaves[d] = true
 	}
-	c.R.Check(okT, "C04-R5", "try: target resolved from the result bindings", c.pos(nnStores[0]), "NodeName = b.target(bs) with the bs stored as the state's bindings", "the next node is not resolved from the bindings that become the next state's bindings")
+	sameAsRes := func(v ssa.Value) bool {
+		if v == resBs {
+			return true
+		}
+		ds := deepDefs(v, closure)
+		if len(ds) == 0 {
+			return false
+		}
+		for _, d := range ds {
+			if !resLeaves[d] {
+				return false
+			}
+		}
+		return true
+	}
+	okT := true
+	whyT := ""
+	nLookup := 0
+	for _, d := range deepDefs(nnStores[0].Val, closure) {
+		if _, is := isFieldLoad(d, "core", "Branch", "Target"); is {
+			continue
+		}
+		// s, is := x.(string) where x, have := bs[...]
+		v := d
+		for i := 0; i < 4; i++ {
+			switch x := v.(type) {
+			case *ssa.Extract:
+				v = x.Tuple
+				continue
+			case *ssa.TypeAssert:
+				v = x.X
+				continue
+			}
+			break
+		}
+		if lk, isLk := v.(*ssa.Lookup); isLk {
+			nLookup++
+			if !sameAsRes(lk.X) {
+				okT, whyT = false, "the @variable target is looked up in bindings other than the ones that become the next state's bindings ("+c.pos(lk)+")"
+			}
+			continue
+		}
+		okT, whyT = false, "the next node can be "+d.String()
+	}
+	if nLookup == 0 && okT {
+		okT, whyT = false, "no @variable target resolution found"
+	}
+	c.R.Check(okT, "C04-R5", "try: target resolved from the result bindings", c.pos(nnStores[0]), "NodeName is Branch.Target or a string looked up in the bindings stored as the state's bindings", "the next node is not resolved from the bindings that become the next state's bindings: "+whyT)
 }
 
 // patternlessOnly: every path from entry to b that avoids `avoid` passes an edge on which Branch.Pattern is nil.
